@@ -97,6 +97,36 @@ structure Idx where
   body : IdxBody
   rb   : Tok
 
+/-- `, b , c …` after the first identifier of a `uses` list -/
+def commaToks : List (Tok × Tok) → List Tok
+  | [] => []
+  | (c, t) :: rest => c :: t :: commaToks rest
+
+def commaWF : List (Tok × Tok) → Prop
+  | [] => True
+  | (c, t) :: rest => c.kind = Kind.Comma ∧ t.kind = Kind.Identifier ∧ commaWF rest
+
+def commaWfb : List (Tok × Tok) → Bool
+  | [] => true
+  | (c, t) :: rest => c.kind == Kind.Comma && t.kind == Kind.Identifier && commaWfb rest
+
+/-- the options of a reference type: `[ a, b, … ]` -/
+structure RefOpts where
+  lb    : Tok
+  first : Tok
+  rest  : List (Tok × Tok)
+  rb    : Tok
+
+def RefOpts.toks (o : RefOpts) : List Tok := o.lb :: o.first :: (commaToks o.rest ++ [o.rb])
+def RefOpts.WF (o : RefOpts) : Prop :=
+  o.lb.kind = Kind.OSqrBracket ∧ o.first.kind = Kind.Identifier ∧ commaWF o.rest ∧ o.rb.kind = Kind.CSqrBracket
+def RefOpts.wfb (o : RefOpts) : Bool :=
+  o.lb.kind == Kind.OSqrBracket && o.first.kind == Kind.Identifier && commaWfb o.rest && o.rb.kind == Kind.CSqrBracket
+
+def optRefToks : Option RefOpts → List Tok
+  | none => []
+  | some o => o.toks
+
 /-- an enumeration member: `name [= n]` -/
 structure EVar where
   name : Tok
@@ -167,8 +197,8 @@ inductive Ty where
   | composed (first : COp) (rest : List (Tok × COp))
   /-- `T ( n )` -/
   | sized (t lp n rp : Tok)
-  /-- `refTo T` / `listOf T`, optionally `inverse x` -/
-  | ref (r t : Tok) (inv : Option (Tok × Tok))
+  /-- `refTo [[options]] T` / `listOf [[options]] T`, optionally `inverse x` (the options leave no trace in the tree) -/
+  | ref (r : Tok) (opts : Option RefOpts) (t : Tok) (inv : Option (Tok × Tok))
   /-- `lo to hi` over literals -/
   | range (lo to hi : Tok)
   /-- `[ T ]` -/
@@ -211,11 +241,15 @@ def optIdxTrees : Option Idx → List Tree
   | none => []
   | some i => [i.body.tree]
 
+def invToks : Option (Tok × Tok) → List Tok
+  | none => []
+  | some (i, x) => [i, x]
+
 def Ty.toks : Ty → List Tok
   | .basic t => [t]
   | .composed first rest => first.toks ++ copsToks rest
   | .sized t lp n rp => [t, lp, n, rp]
-  | .ref r t inv => r :: t :: (match inv with | some (i, x) => [i, x] | none => [])
+  | .ref r opts t inv => r :: (optRefToks opts ++ t :: invToks inv)
   | .range lo to hi => [lo, to, hi]
   | .set lb t rb => [lb, t, rb]
   | .pointer dot t => [dot, t]
@@ -226,7 +260,7 @@ def Ty.tree : Ty → Tree
   | .basic t => typeBasic t
   | .composed first rest => rest.foldl (fun acc po => binNode acc (.leaf po.1) po.2.tree) first.tree
   | .sized t _ _ rp => mk "type_sized" t.value (Range.span t.rng rp.rng) []
-  | .ref r t inv =>
+  | .ref r _ t inv =>
     mk "type_ref" t.value (Range.span r.rng (match inv with | some (_, x) => x.rng | none => t.rng)) []
       ["ref=" ++ r.kind.name, "idrng=" ++ encRng t.rng]
   | .range lo _ hi => rangeTree lo hi
@@ -241,8 +275,8 @@ def Ty.WF : Ty → Prop
   | .composed first rest => first.WF ∧ copsWF rest
   | .sized t lp n rp =>
     t.kind = Kind.Identifier ∧ lp.kind = Kind.OBracket ∧ n.kind = Kind.NumericLiteral ∧ rp.kind = Kind.CBracket
-  | .ref r t inv =>
-    r.kind ∈ [Kind.RefTo, Kind.ListOf] ∧ t.kind = Kind.Identifier ∧
+  | .ref r opts t inv =>
+    r.kind ∈ [Kind.RefTo, Kind.ListOf] ∧ (∀ o, opts = some o → o.WF) ∧ t.kind = Kind.Identifier ∧
     (∀ i x, inv = some (i, x) → i.kind = Kind.Inverse ∧ x.kind = Kind.Identifier)
   | .range lo to hi => lo.kind ∈ litKinds ∧ to.kind = Kind.To ∧ hi.kind ∈ litKinds
   | .set lb t rb => lb.kind = Kind.OSqrBracket ∧ t.kind = Kind.Identifier ∧ rb.kind = Kind.CSqrBracket
@@ -256,8 +290,8 @@ def Ty.wfb : Ty → Bool
   | .composed first rest => first.wfb && copsWfb rest
   | .sized t lp n rp =>
     t.kind == Kind.Identifier && lp.kind == Kind.OBracket && n.kind == Kind.NumericLiteral && rp.kind == Kind.CBracket
-  | .ref r t inv =>
-    [Kind.RefTo, Kind.ListOf].contains r.kind && t.kind == Kind.Identifier &&
+  | .ref r opts t inv =>
+    [Kind.RefTo, Kind.ListOf].contains r.kind && (match opts with | some o => o.wfb | none => true) && t.kind == Kind.Identifier &&
     (match inv with | some (i, x) => i.kind == Kind.Inverse && x.kind == Kind.Identifier | none => true)
   | .range lo to hi => litKinds.contains lo.kind && to.kind == Kind.To && litKinds.contains hi.kind
   | .set lb t rb => lb.kind == Kind.OSqrBracket && t.kind == Kind.Identifier && rb.kind == Kind.CSqrBracket
@@ -267,11 +301,6 @@ def Ty.wfb : Ty → Bool
     ofT.kind == Kind.Of && t.kind == Kind.Identifier
   | .instOf kw t => kw.kind == Kind.InstanceOf && t.kind == Kind.Identifier
 
-/-- `, b , c …` after the first identifier of a `uses` list -/
-def commaToks : List (Tok × Tok) → List Tok
-  | [] => []
-  | (c, t) :: rest => c :: t :: commaToks rest
-
 def usesToks (kw first : Tok) (rest : List (Tok × Tok)) : List Tok := kw :: first :: commaToks rest
 
 def usesIds (first : Tok) (rest : List (Tok × Tok)) : List Tok := first :: rest.map (fun ct => ct.2)
@@ -280,14 +309,6 @@ def usesIds (first : Tok) (rest : List (Tok × Tok)) : List Tok := first :: rest
 def usesTree (kw first : Tok) (rest : List (Tok × Tok)) : Tree :=
   mk "uses" "uses" ⟨kw.rng.s, (((usesIds first rest).getLast?).getD first).rng.e⟩ []
     ((usesIds first rest).map (fun i => "uses=" ++ i.value) ++ (usesIds first rest).map (fun i => "urng=" ++ encRng i.rng))
-
-def commaWF : List (Tok × Tok) → Prop
-  | [] => True
-  | (c, t) :: rest => c.kind = Kind.Comma ∧ t.kind = Kind.Identifier ∧ commaWF rest
-
-def commaWfb : List (Tok × Tok) → Bool
-  | [] => true
-  | (c, t) :: rest => c.kind == Kind.Comma && t.kind == Kind.Identifier && commaWfb rest
 
 def usesWF (kw first : Tok) (rest : List (Tok × Tok)) : Prop :=
   kw.kind = Kind.Uses ∧ first.kind = Kind.Identifier ∧ commaWF rest
